@@ -41,11 +41,11 @@ theorem exit_iff_partial (r : Run)
     exitStatus r = waitStatus r.o.errorExitCode ↔ ∃ f ∈ printed r, f.nofail = false :=
   ⟨sound r hsafe hcode hlost hkey hplain hF9, fun ⟨f, hf, hn⟩ => complete r hsafe hwrap hcc f hf hn⟩
 
-example : (sampleRun legacy .thread).o.safety = false ∧ (sampleRun legacy .thread).o.errorExitCode % 256 ≠ 0 ∧
-    (sampleRun legacy .thread).lostPipes = 0 ∧ noWrap (sampleRun legacy .thread) = true ∧
-    keyCoherent (sampleRun legacy .thread) = true ∧ unmatchedPlain (sampleRun legacy .thread) = true ∧
-    avoidsUnmatchedNofail (sampleRun legacy .thread) = true ∧ avoidsCheckConfig (sampleRun legacy .thread) = true ∧
-    exitStatus (sampleRun legacy .thread) = 7 ∧ (printed (sampleRun legacy .thread)).map (·.key) = [2, 3, 4, 5] := by
+example : (sampleRun patched .thread).o.safety = false ∧ (sampleRun patched .thread).o.errorExitCode % 256 ≠ 0 ∧
+    (sampleRun patched .thread).lostPipes = 0 ∧ noWrap (sampleRun patched .thread) = true ∧
+    keyCoherent (sampleRun patched .thread) = true ∧ unmatchedPlain (sampleRun patched .thread) = true ∧
+    avoidsUnmatchedNofail (sampleRun patched .thread) = true ∧ avoidsCheckConfig (sampleRun patched .thread) = true ∧
+    exitStatus (sampleRun patched .thread) = 7 ∧ (printed (sampleRun patched .thread)).map (·.key) = [2, 3, 4, 5] := by
   decide
 
 /-- **the theorem about the tree as it is** (both repairs in): no input class is excluded -/
@@ -81,8 +81,8 @@ theorem exit_zero_when_errorExitCode_zero (r : Run) (hsafe : r.o.safety = false)
   · rw [h]; unfold waitStatus; omega
   · exact h
 
-example : exitStatus { sampleRun legacy .single with o := sampleOpts 0 .single } = 0 ∧
-    exitStatus { sampleRun legacy .single with o := sampleOpts 256 .single } = 0 := by decide
+example : exitStatus { sampleRun patched .single with o := sampleOpts 0 .single } = 0 ∧
+    exitStatus { sampleRun patched .single with o := sampleOpts 256 .single } = 0 := by decide
 
 /-- an invalid command line exits with 1, `--help`/`--version` with 0, before anything is analysed -/
 theorem invalid_cmdline_is_1 (r : Run) : processStatus .fail r = 1 ∧ processStatus .exit r = 0 ∧
@@ -93,7 +93,7 @@ theorem safety_critical_is_1 (r : Run) (hsafe : r.o.safety = true) (hcrit : hasC
   unfold exitStatus mainReturn
   simp [hsafe, hcrit, waitStatus]
 
-example : exitStatus { sampleRun legacy .single with
+example : exitStatus { sampleRun patched .single with
     o := { sampleOpts 7 .single with safety := true },
     files := [[{ sampleFinding 1 true true with critical := true }]], wp2 := [], unmatched := [] } = 1 := by decide
 
